@@ -1089,7 +1089,7 @@ theorem idleHandle_nf (s : St) (e : El) (hl : s.listener = .idle) (hnf : ∀ f, 
   · exact ⟨by rw [reject_listener]; exact hl, by simp⟩
   unfold idleHandle'
   split
-  · rename_i f; exact absurd rfl (hnf f)
+  · rename_i f _; exact absurd rfl (hnf f)
   · exact ⟨by simp [socketClose_listener, hl], by simp⟩
   · exact ⟨hl, by simp⟩
   · exact ⟨by rw [(sendStanza_core s _).1.listener]; exact hl, by simp⟩
@@ -1261,5 +1261,372 @@ theorem step_disconnected_means_socket_gone (s : St) (e : Ev) (h : nD (step s e)
   rcases step_effD s e with he | he
   · exact absurd he.1 h
   · exact ⟨he.2.2.2, he.2.2.1⟩
+
+/-- the scan state after a step is the session flag — for every state and every event, no hypothesis -/
+theorem step_altEnd (s : St) (e : Ev) : altEnd s.sessionStarted (step s e).2 = (step s e).1.sessionStarted := by
+  rcases step_done s e with hd | hd
+  · have a := alt_noC s.sessionStarted (step s e).2 hd
+    rw [a.2]
+    rcases step_effD s e with he | he
+    · rw [he.1, he.2 hd]; rfl
+    · rw [he.1, he.2.2.1]; rfl
+  · rcases step_effD s e with he | he
+    · -- exactly one `connected`, no `disconnected`: the scan ends open whatever it started with
+      have : ∀ (o : Bool) (os : List Out), nC os = 1 → nD os = 0 → altEnd o os = true := by
+        intro o os
+        induction os generalizing o with
+        | nil => intro h; simp at h
+        | cons x xs ih =>
+          intro hC hD
+          cases x with
+          | sent k l => simp at hC hD; simpa [altEnd] using ih o hC hD
+          | sig g =>
+            cases g with
+            | connected =>
+              simp at hC hD
+              have := alt_noC true xs hC
+              simp only [altEnd]
+              rw [this.2, hD]; rfl
+            | disconnected => simp at hD
+            | error => simp at hC hD; simpa [altEnd] using ih o hC hD
+            | iqDone b => simp at hC hD; simpa [altEnd] using ih o hC hD
+      rw [this _ _ hd.1 he.1, hd.2.2.1]
+    · rw [he.2.1] at hd; cases hd.1
+
+theorem run_altEnd (evs : List Ev) (s : St) : altEnd s.sessionStarted (run s evs).2 = (run s evs).1.sessionStarted := by
+  induction evs generalizing s with
+  | nil => rfl
+  | cons e es ih => simp only [run, altEnd_append, step_altEnd]; exact ih _
+
+/-! ### the session flag is only set while the socket is connected -/
+
+/-- either the socket state is untouched or no session is flagged afterwards -/
+def CK (s : St) (r : R) : Prop := r.1.conn = s.conn ∨ r.1.sessionStarted = false
+
+theorem onSocketDisconnected_noSession (s : St) : (onSocketDisconnected s).1.sessionStarted = false := by
+  unfold onSocketDisconnected closeSession
+  dsimp only
+  split
+  · split
+    · rfl
+    · rename_i h; simpa using h
+  · rfl
+
+theorem socketClose_ck (s : St) : CK s (socketClose s) := by
+  unfold socketClose
+  split
+  · exact Or.inr (by simp [onSocketDisconnected_noSession])
+  · exact Or.inl rfl
+theorem disconnectFromHost_ck (s : St) : CK s (disconnectFromHost s) := by
+  unfold disconnectFromHost; exact socketClose_ck { s with canResume := false }
+theorem reject_ck (s : St) : CK s (reject s) := by unfold reject; exact disconnectFromHost_ck s
+theorem failAuth_ck (s : St) : CK s (failAuth s) := by unfold failAuth; exact disconnectFromHost_ck s
+theorem openSession_ck (s t : St) (h : t.conn = s.conn) : CK s (openSession t) :=
+  Or.inl ((openSession_spec t).2.2.1.conn.trans h)
+theorem ck_same {s : St} {r : R} (h : r.1.conn = s.conn) : CK s r := Or.inl h
+
+theorem startSasl_ck (s : St) (m : Mech) : CK s (startSasl s m) := by
+  unfold startSasl
+  split
+  · exact ck_same rfl
+  · exact disconnectFromHost_ck { s with listener := .saslDead }
+
+theorem startSasl2_ck (s : St) (z : S2Feat) : CK s (startSasl2 s z) := by
+  unfold startSasl2
+  dsimp only
+  have h1 : (if z.bind2 = true then { s with bind2InactiveSet := s.cfg.inactive && z.bind2Ext } else s).conn = s.conn := by
+    split <;> rfl
+  generalize (if z.bind2 = true then { s with bind2InactiveSet := s.cfg.inactive && z.bind2Ext } else s) = s1 at h1
+  split
+  · exact ck_same h1
+  · rcases disconnectFromHost_ck
+      { ({ s1 with tokenRequested := (z.fast && s1.cfg.fastUa) && !s1.hasToken } : St) with listener := .sasl2Dead } with h | h
+    · exact Or.inl (h.trans h1)
+    · exact Or.inr h
+
+theorem handleStarttls_ck (s : St) (f : Features) : ∀ r, handleStarttls s f = some r → CK s r := by
+  intro r hr
+  unfold handleStarttls at hr
+  repeat' split at hr
+  all_goals first
+    | (cases hr; done)
+    | (cases hr; exact disconnectFromHost_ck s)
+    | (cases hr; exact ck_same rfl)
+
+theorem handleFeatures_ck (s : St) (f : Features) : CK s (handleFeatures s f) := by
+  unfold handleFeatures
+  split
+  · rename_i r hr; exact handleStarttls_ck s f r hr
+  · split
+    · exact startSasl2_ck s _
+    · split
+      · exact startSasl_ck s _
+      · split
+        · exact ck_same rfl
+        · dsimp only
+          split
+          · exact ck_same rfl
+          · split
+            · exact ck_same rfl
+            · split
+              · exact ck_same rfl
+              · exact openSession_ck s _ rfl
+
+theorem handleStream_ck (s : St) (v i : Bool) : CK s (handleStream s v i) := by
+  unfold handleStream
+  dsimp only
+  split
+  · exact ck_same rfl
+  · split
+    · split
+      · exact disconnectFromHost_ck { s with streamIdSet := s.streamIdSet || i, streamVersionSet := v }
+      · exact ck_same rfl
+    · exact ck_same rfl
+
+theorem idleHandle_ck (s : St) (e : El) : CK s (idleHandle s e) := by
+  unfold idleHandle
+  split
+  · exact reject_ck s
+  unfold idleHandle'
+  split
+  · exact handleFeatures_ck s _
+  · exact socketClose_ck { s with redirect := true }
+  · exact ck_same rfl
+  · exact ck_same (sendStanza_core s _).1.conn
+  · exact ck_same (sendStanza_core s _).1.conn
+  · split <;> exact ck_same rfl
+  · exact ck_same rfl
+  · exact ck_same rfl
+  · exact ck_same rfl
+  · exact reject_ck s
+
+theorem starttlsHandle_ck (s : St) (e : El) : CK s (starttlsHandle s e) := by
+  unfold starttlsHandle
+  split
+  · exact ck_same rfl
+  · exact Or.inr (by simp [onSocketDisconnected_noSession])
+  · exact reject_ck s
+
+theorem nonSaslHandle_ck (s : St) (e : El) : CK s (nonSaslHandle s e) := by
+  unfold nonSaslHandle
+  split
+  · split
+    · exact ck_same rfl
+    · exact disconnectFromHost_ck s
+  · exact disconnectFromHost_ck s
+  · exact reject_ck s
+
+theorem nonSaslResultHandle_ck (s : St) (e : El) : CK s (nonSaslResultHandle s e) := by
+  unfold nonSaslResultHandle
+  split
+  · exact openSession_ck s _ rfl
+  · exact openSession_ck s _ rfl
+  · exact disconnectFromHost_ck s
+  · exact reject_ck s
+
+theorem saslHandle_ck (s : St) (m : Used) (fr : Bool) (e : El) : CK s (saslHandle s m fr e) := by
+  unfold saslHandle
+  split
+  · split
+    · exact ck_same rfl
+    · exact failAuth_ck s
+  · split
+    · exact ck_same rfl
+    · exact failAuth_ck s
+  · exact failAuth_ck s
+  · exact reject_ck s
+
+theorem sasl2Handle_ck (s : St) (m : Used) (fr : Bool) (e : El) : CK s (sasl2Handle s m fr e) := by
+  unfold sasl2Handle
+  split
+  · split
+    · exact ck_same rfl
+    · exact failAuth_ck s
+  · rename_i b r tok proof
+    split
+    case isFalse => exact failAuth_ck s
+    dsimp only
+    have c1 : ({ s with authenticated := true, bind2Bound := decide (b ≠ S2Bound.none),
+                          hasToken := s.hasToken || (tok && (s.tokenRequested || s.hasToken)) } : St).conn = s.conn := rfl
+    generalize ({ s with authenticated := true, bind2Bound := decide (b ≠ S2Bound.none),
+                          hasToken := s.hasToken || (tok && (s.tokenRequested || s.hasToken)) } : St) = s1 at c1
+    have c2 : (if r = .resumed then onSmResumed s1 else (s1, [])).1.conn = s.conn := by split <;> exact c1
+    generalize (if r = .resumed then onSmResumed s1 else (s1, [])) = r2 at c2
+    have c3 : (if b = .smEnabled then onSmEnabled r2.1 true else (r2.1, [])).1.conn = s.conn := by split <;> exact c2
+    generalize (if b = .smEnabled then onSmEnabled r2.1 true else (r2.1, [])) = r3 at c3
+    split
+    · exact openSession_ck s _ c3
+    · exact ck_same c3
+  · exact failAuth_ck s
+  · exact ck_same rfl
+  · exact reject_ck s
+
+theorem smResumeHandle_ck (s : St) (e : El) : CK s (smResumeHandle s e) := by
+  unfold smResumeHandle
+  split
+  · exact openSession_ck s _ rfl
+  · split
+    · exact ck_same rfl
+    · exact openSession_ck s _ rfl
+  · exact reject_ck s
+
+theorem smEnableHandle_ck (s : St) (e : El) : CK s (smEnableHandle s e) := by
+  unfold smEnableHandle
+  split
+  · exact openSession_ck s _ rfl
+  · exact openSession_ck s _ rfl
+  · exact reject_ck s
+
+theorem bindHandle_ck (s : St) (e : El) : CK s (bindHandle s e) := by
+  unfold bindHandle
+  split
+  · split
+    · exact ck_same rfl
+    · exact openSession_ck s _ rfl
+  · exact failAuth_ck s
+  · exact failAuth_ck s
+  · exact reject_ck s
+
+theorem dispatch_ck (s : St) (e : El) : CK s (dispatch s e) := by
+  unfold dispatch
+  split
+  · exact idleHandle_ck s e
+  · exact starttlsHandle_ck s e
+  · exact nonSaslHandle_ck s e
+  · exact nonSaslResultHandle_ck s e
+  · exact saslHandle_ck s _ _ e
+  · exact reject_ck s
+  · exact sasl2Handle_ck s _ _ e
+  · exact reject_ck s
+  · exact smResumeHandle_ck s e
+  · exact smEnableHandle_ck s e
+  · exact bindHandle_ck s e
+
+/-- invariant: a session is only flagged while the socket is connected -/
+def MInv (s : St) : Prop := s.sessionStarted = true → s.conn = .connected
+
+theorem step_minv (s : St) (e : Ev) (hm : MInv s) : MInv (step s e).1 := by
+  have useCk : ∀ r : R, s.conn = .connected → CK s r →
+      (r.1.sessionStarted = true → r.1.conn = .connected) := by
+    intro r hc hck hss
+    rcases hck with h | h
+    · exact h.trans hc
+    · rw [h] at hss; cases hss
+  cases e with
+  | connectToServer =>
+    simp only [step]
+    split
+    · rename_i hd
+      intro hss
+      have := hm hss
+      rw [hd] at this; cases this
+    · exact hm
+  | socketConnected =>
+    simp only [step]
+    split
+    · intro _; rfl
+    · exact hm
+  | socketError => exact hm
+  | socketDisconnected =>
+    simp only [step]
+    split
+    · intro hss; rw [onSocketDisconnected_noSession] at hss; cases hss
+    · split
+      · rename_i hc
+        intro hss
+        have := hm hss
+        rw [hc] at this; cases this
+      · exact hm
+  | sendIq =>
+    simp only [step, sendIq]
+    have hc := sendStanza_core s (.iqRequest false)
+    split
+    · intro hss; rw [hc.1.conn]; exact hm (by rw [← hc.2.1]; exact hss)
+    · intro hss
+      show (sendStanza s (.iqRequest false)).1.conn = _
+      rw [hc.1.conn]
+      exact hm (by rw [← hc.2.1]; exact hss)
+  | recv el =>
+    simp only [step]
+    unfold recv
+    split
+    · exact hm
+    · rename_i hcw
+      have hc : s.conn = .connected := by
+        by_cases hc : s.conn = .connected
+        · exact hc
+        · exact absurd (Or.inl hc) hcw
+      split
+      · exact useCk _ hc (handleStream_ck { s with headerSeen := true } _ _)
+      · split
+        · exact hm
+        · split
+          · exact useCk _ hc (disconnectFromHost_ck s)
+          · exact useCk _ hc (dispatch_ck s el)
+
+theorem run_minv (evs : List Ev) (s : St) (hm : MInv s) : MInv (run s evs).1 := by
+  induction evs generalizing s with
+  | nil => exact hm
+  | cons e es ih => simp only [run]; exact ih _ (step_minv s e hm)
+
+/-! ### legacy (XEP-0078) login -/
+
+theorem ph_header_versionless {c enc auth sess s} (h : Ph c enc .idle auth sess s) (hv : s.streamVersionSet = false)
+    (hns : c.useNonSasl = true) (htls : enc = true ∨ c.tls ≠ .required) :
+    Ph c enc .nonSaslFields auth sess (step s (.recv (.header false true))).1 ∧
+    (step s (.recv (.header false true))).1.headerSeen = true ∧
+    nC (step s (.recv (.header false true))).2 = 0 ∧ nD (step s (.recv (.header false true))).2 = 0 := by
+  obtain ⟨h1, h2, h3, h4, h5, h6, h7, h8⟩ := h
+  have e : step s (.recv (.header false true)) =
+      ({ s with headerSeen := true, streamIdSet := s.streamIdSet || true, streamVersionSet := false, listener := .nonSaslFields },
+       [send { s with headerSeen := true, streamIdSet := s.streamIdSet || true, streamVersionSet := false } .nonSaslQuery]) := by
+    rcases htls with h | h
+    · subst h
+      simp [step, recv, h2, h3, handleStream, hv, h1, hns, startNonSaslAuth, h4]
+    · simp [step, recv, h2, h3, handleStream, hv, h1, hns, startNonSaslAuth, h]
+  rw [e]
+  exact ⟨⟨h1, h2, h3, h4, rfl, h6, h7, h8⟩, rfl, by simp, by simp⟩
+
+theorem ph_fields {c enc auth sess s} (h : Ph c enc .nonSaslFields auth sess s) (hh : s.headerSeen = true) :
+    Ph c enc .nonSaslResult auth sess (step s (.recv (.iq (.authFields true true)))).1 ∧
+    (step s (.recv (.iq (.authFields true true)))).1.headerSeen = true ∧
+    nC (step s (.recv (.iq (.authFields true true)))).2 = 0 ∧ nD (step s (.recv (.iq (.authFields true true)))).2 = 0 := by
+  obtain ⟨h1, h2, h3, h4, h5, h6, h7, h8⟩ := h
+  have e : step s (.recv (.iq (.authFields true true))) =
+      ({ s with listener := .nonSaslResult }, [send s (.nonSaslAuth s.cfg.nsPlain)]) := by
+    simp [step, recv, h2, h3, hh, dispatch, h5, nonSaslHandle]
+  rw [e]
+  exact ⟨⟨h1, h2, h3, h4, rfl, h6, h7, h8⟩, hh, by simp, by simp⟩
+
+theorem ph_authResult {c enc auth s} (h : Ph c enc .nonSaslResult auth false s) (hh : s.headerSeen = true) :
+    .sig .connected ∈ (step s (.recv (.iq (.authResult true)))).2 ∧
+    nC (step s (.recv (.iq (.authResult true)))).2 = 1 ∧ nD (step s (.recv (.iq (.authResult true)))).2 = 0 ∧
+    Ph c enc .idle true true (step s (.recv (.iq (.authResult true)))).1 := by
+  obtain ⟨h1, h2, h3, h4, h5, h6, h7, h8⟩ := h
+  have e : step s (.recv (.iq (.authResult true))) =
+      ({ (openSession { s with authenticated := true }).1 with listener := .idle }, (openSession { s with authenticated := true }).2) := by
+    simp [step, recv, h2, h3, hh, dispatch, h5, nonSaslResultHandle]
+  rw [e]
+  have sp := openSession_spec { s with authenticated := true }
+  have co := sp.2.2.1
+  exact ⟨sp.1, by simp, by simp, ⟨co.cfg.trans h1, co.conn.trans h2, co.wedged.trans h3, co.encrypted.trans h4, rfl,
+    co.authenticated, sp.2.1, co.redirect.trans h8⟩⟩
+
+/-- the legacy flow: nothing is reported before the last element, which reports `connected` exactly once -/
+theorem flowLegacy_connects {c enc auth s} (h0 : Ph c enc .idle auth false s) (hv : s.streamVersionSet = false)
+    (hns : c.useNonSasl = true) (htls : enc = true ∨ c.tls ≠ .required) :
+    .sig .connected ∈ (run s flowLegacy).2 ∧ Ph c enc .idle true true (run s flowLegacy).1 ∧
+    nC (run s flowLegacy).2 = 1 ∧ nD (run s flowLegacy).2 = 0 ∧ QuietRun s flowLegacy.dropLast := by
+  have a1 := ph_header_versionless h0 hv hns htls
+  have a2 := ph_fields a1.1 a1.2.1
+  have a3 := ph_authResult a2.1 a2.2.1
+  have e : flowLegacy = [.recv (.header false true), .recv (.iq (.authFields true true)), .recv (.iq (.authResult true))] := rfl
+  have e' : flowLegacy.dropLast = [.recv (.header false true), .recv (.iq (.authFields true true))] := rfl
+  rw [e']
+  refine ⟨?_, ?_, ?_, ?_, ⟨a1.2.2.1, a1.2.2.2, a1.1.sess, a2.2.2.1, a2.2.2.2, a2.1.sess, trivial⟩⟩
+  · rw [e]; simp only [run_cons, run, List.mem_append]; right; right; left; exact a3.1
+  · rw [e]; simp only [run_cons, run]; exact a3.2.2.2
+  · rw [e]; simp only [run_cons, run, nC_append, a1.2.2.1, a2.2.2.1, a3.2.1, nC_nil]
+  · rw [e]; simp only [run_cons, run, nD_append, a1.2.2.2, a2.2.2.2, a3.2.2.1, nD_nil]
 
 end Qx.C10
